@@ -507,11 +507,13 @@ impl VtCtx {
             finish_vt: None,
             finish_t: None,
             cancel_t: vec![],
+            cancel_vt: vec![],
             br: Bracket::default(),
             api_id: None,
             how,
             in_adapter: None,
             pre_reporter: false,
+            cid: None,
         }
     }
 
@@ -562,6 +564,14 @@ impl VtCtx {
         } else {
             ms.noop = true;
             ms.pre_reporter = !ready;
+        }
+        if sampled && !ms.noop {
+            let w = self.w();
+            let me = self.id;
+            ms.cid = w.h.hooks.iter().rev().take_while(|e| e.t > t0).find_map(|e| match (&e.kind, e.vt) {
+                (HookKind::Command { kind: "start", ids, .. }, Some(vt)) if vt == me => ids.first().copied(),
+                _ => None,
+            });
         }
         Some(self.finish_span_creation(span, ms, props, hit, "Span::with_properties", t0, c0))
     }
@@ -1315,6 +1325,8 @@ impl VtCtx {
         let t1 = w.tick();
         w.spans[idx] = Slot::Live(span);
         w.h.spans[idx].cancel_t.push((t0, t1));
+        let vt = self.id;
+        w.h.spans[idx].cancel_vt.push(vt);
     }
 
     pub fn op_ctx_of_span(&mut self, span_sel: u16) {
